@@ -410,6 +410,42 @@ func runC05(c *eng.Ctx, thorough bool) {
 			}
 		}
 	}
+	// the "already restored" set must not outlive the in-memory state it describes: a stale entry makes the
+	// next restore skip the lease, which then sits in storage with no expiry timer (seed C05-b)
+	if f := c.Fn("vault.(*ExpirationManager).StopNamespace"); f != nil {
+		c.Clause("R4", "C05.5")
+		var clears []ssa.Instruction
+		var clo *ssa.Function
+		for _, r := range eng.Calls(f, `^sync\.\(\*Map\)\.Range$`) {
+			if strings.HasSuffix(eng.Expr(r.Common().Args[0]), ".restoreLoaded") {
+				clears = append(clears, r)
+				if mc, ok := r.Common().Args[1].(*ssa.MakeClosure); ok {
+					clo, _ = mc.Fn.(*ssa.Function)
+				}
+			}
+		}
+		site := "dropping a namespace's leases clears its restore markers on every path"
+		if len(clears) == 0 {
+			c.Violation(f, site, f.Pos(), "StopNamespace no longer scans restoreLoaded: markers of the stopped namespace survive and the next restore skips those leases", nil)
+		} else if h := eng.Reach(eng.Query{Fn: f, Barriers: clears, Target: func(in ssa.Instruction) bool { _, ok := in.(*ssa.Return); return ok && in.Block().Comment != "recover" }}); h != nil {
+			c.Violation(f, site, h.Instr.Pos(), "StopNamespace can return without scanning restoreLoaded (the scan became conditional): markers touched while another namespace was restoring survive and the next restore of this namespace skips those leases", h.Witness)
+		} else {
+			c.OK(f, site, clears[0].Pos(), "every return of StopNamespace passes the restoreLoaded scan")
+		}
+		if clo != nil {
+			c.Clause("R2", "C05.5")
+			dels := instrsOf(eng.Calls(clo, `^sync\.\(\*Map\)\.Delete$`))
+			if c.Floor(clo, "restoreLoaded.Delete", len(dels), 1) {
+				c.Cut(clo, "restore marker deleted", dels, eng.G(clo, `MatchesID\(\)$`, true), nil)
+				// and every matching key is deleted
+				if h := eng.Reach(eng.Query{Fn: clo, StartEdges: eng.CondEdges(clo, `MatchesID\(\)$`, true), Barriers: dels, Target: func(in ssa.Instruction) bool { _, ok := in.(*ssa.Return); return ok }}); h != nil {
+					c.Violation(clo, "every marker of the namespace is deleted", h.Instr.Pos(), "a key of the namespace can be left in restoreLoaded", h.Witness)
+				} else {
+					c.OK(clo, "every marker of the namespace is deleted", dels[0].Pos(), "MatchesID ⇒ Delete")
+				}
+			}
+		}
+	}
 	for _, fn := range []string{"vault.(*ExpirationManager).Restore", "vault.(*ExpirationManager).restore"} {
 		if f := c.P.Func(fn); f != nil {
 			c.Clause("R3", "C05.5")
